@@ -60,6 +60,7 @@ func runDecode(cfg *Cfg) {
 		}
 		en := enumNums(t)
 		deepAndBig(out, t, r, cfg.Tier)
+		repeatedKeyPass(out, t, r, en, modelOK)
 		for c := 0; c < perTarget; c++ {
 			g := &vval.StreamGen{R: r, S: t.S, G: &vval.GenOpts{EnumNums: en}, Features: map[string]bool{}, MaxDepth: 1 + r.Intn(3)}
 			bs := g.Message(0, 0)
@@ -82,6 +83,55 @@ func runDecode(cfg *Cfg) {
 				out.Sample(fmt.Sprintf("%s flags=%s %x", t.Full, flagStr(merge, discard), bs))
 			}
 			decodeCase(out, t, g, bs, into, merge, discard, malformed, modelOK)
+		}
+	}
+}
+
+// repeatedKeyPass: the SAME map key in two entries of one stream, and in the stream and the Merge target — for
+// string keys of every length class (empty, short, around 32 / 64 bytes, long). A decoder may treat "key already
+// present" differently from "new key" (look-up before insert, interning, reuse of the stored key): the decoded value
+// must still equal the reference and must not share memory with the input (decodeCase overwrites the input).
+func repeatedKeyPass(out *Out, t *Target, r *vschema.Rand, en []int32, modelOK bool) {
+	for j := range t.S.Msgs[0].Fields {
+		f := &t.S.Msgs[0].Fields[j]
+		if f.Shape != vschema.Map {
+			continue
+		}
+		lens := []int{1}
+		if f.Key == vschema.String {
+			lens = []int{0, 1, 31, 32, 33, 40, 64, 65, 300}
+		}
+		for _, kl := range lens {
+			g := &vval.StreamGen{R: r, S: t.S, G: &vval.GenOpts{EnumNums: en}, Features: map[string]bool{"repeated-map-key": true}, MaxDepth: 1}
+			var key []byte
+			if f.Key == vschema.String {
+				key = make([]byte, kl)
+				for i := range key {
+					key[i] = byte('a' + (i*7+kl)%26)
+				}
+				key = protowire.AppendBytes(protowire.AppendTag(nil, 1, protowire.BytesType), key)
+			} else {
+				key = g.ScalarRecord(1, f.Key)
+			}
+			entry := func() []byte {
+				body := append([]byte(nil), key...)
+				vf := *f
+				vf.Num, vf.Shape = 2, vschema.Singular
+				body = g.ElemRecord(body, &vf, 1)
+				e := protowire.AppendTag(nil, protowire.Number(f.Num), protowire.BytesType)
+				return protowire.AppendBytes(e, body)
+			}
+			first, second := entry(), entry()
+			bs := append(append(append([]byte(nil), first...), 0xc0, 0x3e, 0x01), second...)
+			out.Case(fmt.Sprintf("repkey:%s:%d:%d", t.Full, f.Num, kl), true)
+			out.Count("repeated_map_key_cases")
+			decodeCase(out, t, g, bs, vval.Empty(t.S, 0), false, false, false, modelOK)
+			// Merge: the target already holds the key (decode the first entry into it through the reference-checked path)
+			holder := t.B.ToMessage(0, vval.Empty(t.S, 0))
+			if err := proto.Unmarshal(append([]byte(nil), first...), holder); err == nil {
+				g2 := &vval.StreamGen{R: r, S: t.S, G: g.G, Features: map[string]bool{"repeated-map-key": true, "merge-into-nonempty": true}, MaxDepth: 1}
+				decodeCase(out, t, g2, append([]byte(nil), second...), t.B.FromMessage(0, holder), true, false, false, modelOK)
+			}
 		}
 	}
 }
